@@ -18,6 +18,12 @@ TRUSTED = ['modelled, not verified: TeX.readNumber on the digit run of a literal
 ASSUMPTIONS = ['operands are integer literals |n| < 10^6, lengths use pt/cm/mm/in with at most 3 decimals']
 CASE_TIMEOUT = 10
 
+
+def gen_tables(repo, gen_dir):
+    from translate import ifthen_prec
+    d = ifthen_prec.generate(repo, gen_dir)
+    return dict(obligations=0, file='Gen/IfthenPrec.v', prec=d)
+
 REL = {'<': 0, '>': 1, '=': 2}
 UNITS = {'pt': Fraction(65536), 'cm': Fraction(7227, 254) * 65536, 'mm': Fraction(7227, 2540) * 65536, 'in': Fraction(7227, 100) * 65536}
 
